@@ -96,9 +96,10 @@ theorem af_delivered (cfg : Cfg) (cons : Str → List CStat) : ∀ (tys : List S
 
 def SLe (s s' : XState) : Prop :=
   s.vars.length ≤ s'.vars.length ∧ (∀ ty, (s.cons ty).length ≤ (s'.cons ty).length) ∧
-  (∀ g, (s.delivered.filter (fun c => c.grp == g)).length ≤ (s'.delivered.filter (fun c => c.grp == g)).length)
+  (∀ g, (s.delivered.filter (fun c => c.grp == g)).length ≤ (s'.delivered.filter (fun c => c.grp == g)).length) ∧
+  (∀ t, s.extra t ≤ s'.extra t)
 
-theorem SLe_refl (s : XState) : SLe s s := ⟨Nat.le_refl _, fun _ => Nat.le_refl _, fun _ => Nat.le_refl _⟩
+theorem SLe_refl (s : XState) : SLe s s := ⟨Nat.le_refl _, fun _ => Nat.le_refl _, fun _ => Nat.le_refl _, fun _ => Nat.le_refl _⟩
 
 theorem refIn_of_le (cfg : Cfg) (s s' : XState) (h : SLe s s') (r : NodeRef) (hr : refIn cfg s r = true) :
     refIn cfg s' r = true := by
@@ -108,14 +109,15 @@ theorem refIn_of_le (cfg : Cfg) (s s' : XState) (h : SLe s s') (r : NodeRef) (hr
   · simp only [h1, if_true, Bool.and_eq_true, decide_eq_true_eq] at hr ⊢
     exact ⟨hr.1, Nat.lt_of_lt_of_le hr.2 h.1⟩
   · simp only [h1, if_false] at hr ⊢
-    cases hl : cfg.static.lookup r.node with
-    | some n => simpa [hl] using hr
-    | none =>
-      simp only [hl] at hr ⊢
+    by_cases hl : cfg.addNodes.contains r.node = true
+    · rw [if_pos hl] at hr ⊢
+      simp only [Bool.and_eq_true, decide_eq_true_eq] at hr ⊢
+      exact ⟨hr.1, Nat.lt_of_lt_of_le hr.2 (h.2.2.2 r.node)⟩
+    · rw [if_neg hl] at hr ⊢
       cases hg : destConsGroup? r.node with
       | some g =>
         simp only [hg, Bool.and_eq_true, decide_eq_true_eq] at hr ⊢
-        exact ⟨hr.1, Nat.lt_of_lt_of_le hr.2 (h.2.2 g)⟩
+        exact ⟨hr.1, Nat.lt_of_lt_of_le hr.2 (h.2.2.1 g)⟩
       | none =>
         simp only [hg] at hr ⊢
         by_cases hc : cfg.types.contains r.node = true
@@ -134,37 +136,66 @@ theorem xev_le (cfg : Cfg) (s : XState) (e : Ev) (hd : s.finished = false → s.
   | addVar b info =>
     simp only [xev]; split
     · exact SLe_refl s
-    · exact ⟨by simp, fun _ => Nat.le_refl _, fun _ => Nat.le_refl _⟩
+    · exact ⟨by simp [addVarState], fun _ => Nat.le_refl _, fun _ => Nat.le_refl _, fun _ => Nat.le_refl _⟩
   | setVar i info =>
     simp only [xev]; split
     · exact SLe_refl s
     · split
-      · exact ⟨by simp [setAt], fun _ => Nat.le_refl _, fun _ => Nat.le_refl _⟩
+      · exact ⟨by simp [setAt], fun _ => Nat.le_refl _, fun _ => Nat.le_refl _, fun _ => Nat.le_refl _⟩
       · exact SLe_refl s
   | store ty =>
     simp only [xev]; split
     · exact SLe_refl s
-    · exact ⟨Nat.le_refl _, updCons_len_le _ _ _ (by simp), fun _ => Nat.le_refl _⟩
+    · exact ⟨Nat.le_refl _, updCons_len_le _ _ _ (by simp), fun _ => Nat.le_refl _, fun _ => Nat.le_refl _⟩
   | bridge ty i =>
     simp only [xev]; split
     · exact SLe_refl s
-    · exact ⟨Nat.le_refl _, updCons_len_le _ _ _ (by simp [setAt]), fun _ => Nat.le_refl _⟩
+    · exact ⟨Nat.le_refl _, updCons_len_le _ _ _ (by simp [setAt]), fun _ => Nat.le_refl _, fun _ => Nat.le_refl _⟩
   | unuse ty i =>
     simp only [xev]; split
     · exact SLe_refl s
-    · exact ⟨Nat.le_refl _, updCons_len_le _ _ _ (by simp [setAt]), fun _ => Nat.le_refl _⟩
+    · exact ⟨Nat.le_refl _, updCons_len_le _ _ _ (by simp [setAt]), fun _ => Nat.le_refl _, fun _ => Nat.le_refl _⟩
+  | addItems node n =>
+    simp only [xev]; split
+    · exact SLe_refl s
+    · refine ⟨Nat.le_refl _, fun _ => Nat.le_refl _, fun _ => Nat.le_refl _, fun t => ?_⟩
+      simp only [addItemsState]; split
+      · rename_i e; subst e; omega
+      · exact Nat.le_refl _
   | link lty en src dst =>
     simp only [xev]; split
-    · exact ⟨Nat.le_refl _, fun _ => Nat.le_refl _, fun _ => Nat.le_refl _⟩
+    · exact ⟨Nat.le_refl _, fun _ => Nat.le_refl _, fun _ => Nat.le_refl _, fun _ => Nat.le_refl _⟩
     · exact SLe_refl s
   | finish =>
     simp only [xev]; split
     · exact SLe_refl s
     · rename_i hf
       have : s.delivered = [] := hd (by simpa using hf)
-      exact ⟨Nat.le_refl _, fun _ => Nat.le_refl _, fun g => by simp [this]⟩
+      exact ⟨Nat.le_refl _, fun _ => Nat.le_refl _, fun g => by simp [finishState, this], fun _ => Nat.le_refl _⟩
 
 /-! ### the invariant -/
+
+/-- the configuration is sane: keeper types are distinct and are not names of the other value nodes -/
+structure CfgOk (cfg : Cfg) : Prop where
+  nodup : cfg.types.Nodup
+  tyRes : ∀ ty, cfg.types.contains ty = true →
+    ty ≠ cl!"dest_vars()" ∧ cfg.addNodes.contains ty = false ∧ destConsGroup? ty = none
+  addRes : ∀ n, cfg.addNodes.contains n = true → n ≠ cl!"dest_vars()"
+
+theorem size_vars (cfg : Cfg) (s : XState) : sizeNow cfg s cl!"dest_vars()" = some s.vars.length := by simp [sizeNow]
+
+theorem size_add (cfg : Cfg) (ok : CfgOk cfg) (s : XState) (n : Str) (h : cfg.addNodes.contains n = true) :
+    sizeNow cfg s n = some (s.extra n) := by
+  have h1 := ok.addRes n h
+  unfold sizeNow
+  rw [if_neg h1, if_pos h]
+
+theorem size_ty (cfg : Cfg) (ok : CfgOk cfg) (s : XState) (ty : Str) (h : cfg.types.contains ty = true) :
+    sizeNow cfg s ty = some (s.cons ty).length := by
+  obtain ⟨h1, h2, h3⟩ := ok.tyRes ty h
+  unfold sizeNow
+  rw [if_neg h1, if_neg (by rw [h2]; simp), h3]
+  simp only [h, if_true]
 
 structure EInv (cfg : Cfg) (s : XState) : Prop where
   /-- the creation records of type `ty` are exactly `0 .. n-1`, in order, `n` = number of stored constraints -/
@@ -174,6 +205,8 @@ structure EInv (cfg : Cfg) (s : XState) : Prop where
   nodeliv : s.finished = false → s.delivered = []
   /-- every exported link endpoint lies inside the current size of its value node -/
   links : ∀ lty e src dst, Rec.link lty e src dst ∈ s.out → ∀ r, (r ∈ src ∨ r ∈ dst) → refIn cfg s r = true
+  /-- every `NodeRange` handed out by `Select`/`Add` lies inside the item count of its class ("node size ≤ item count") -/
+  createdIn : ∀ a, a ∈ s.created → refIn cfg s a = true
   /-- every flat variable has a record, and no record names a variable that does not exist -/
   vars1 : ∀ i, i < s.vars.length → ∃ b info, Rec.var i b info ∈ s.out
   vars2 : ∀ i b info, Rec.var i b info ∈ s.out → i < s.vars.length
@@ -200,14 +233,14 @@ theorem filter_append_nil {α : Type} (p : α → Bool) (a b : List α) (h : ∀
   rw [List.filter_append, hb, List.append_nil]
 
 theorem einv_init (cfg : Cfg) : EInv cfg {} := by
-  refine ⟨fun ty => by simp, fun _ r hr => by simp at hr, fun _ => rfl, ?_, ?_, ?_, fun h => by simp at h⟩
+  refine ⟨fun ty => by simp, fun _ r hr => by simp at hr, fun _ => rfl, ?_, fun a h => by simp at h, ?_, ?_, fun h => by simp at h⟩
   · intro lty e src dst h; simp at h
   · intro i h; simp at h
   · intro i b info h; simp at h
 
 /-- a state that differs from `s` only in fields the invariant reads monotonically / not at all -/
 theorem einv_reject (cfg : Cfg) (s : XState) (h : EInv cfg s) : EInv cfg (reject s) :=
-  ⟨h.news, h.nostat, h.nodeliv, h.links, h.vars1, h.vars2, h.fin⟩
+  ⟨h.news, h.nostat, h.nodeliv, h.links, h.createdIn, h.vars1, h.vars2, h.fin⟩
 
 theorem isStatusTy_isStatus (ty : Str) (r : Rec) (h : isStatus r = false) : isStatusTy ty r = false := by
   cases r <;> simp [isStatus] at h <;> simp [isStatusTy]
@@ -217,10 +250,11 @@ theorem updCons_other (f : Str → List CStat) (ty t : Str) (l : List CStat) (h 
   simp [updCons, h]
 
 theorem einv_addVar (cfg : Cfg) (s : XState) (h : EInv cfg s) (b : Bool) (info : VarInfo) (hf : s.finished = false) :
-    EInv cfg { s with vars := s.vars ++ [(b, info)], out := s.out ++ [Rec.var s.vars.length b info] } := by
-  have hle : SLe s { s with vars := s.vars ++ [(b, info)], out := s.out ++ [Rec.var s.vars.length b info] } :=
-    ⟨by simp, fun _ => Nat.le_refl _, fun _ => Nat.le_refl _⟩
-  refine ⟨?_, ?_, h.nodeliv, ?_, ?_, ?_, fun hfin => by simp [hf] at hfin⟩
+    EInv cfg (addVarState s b info) := by
+  have hle : SLe s (addVarState s b info) :=
+    ⟨by simp [addVarState], fun _ => Nat.le_refl _, fun _ => Nat.le_refl _, fun _ => Nat.le_refl _⟩
+  unfold addVarState at hle ⊢
+  refine ⟨?_, ?_, h.nodeliv, ?_, ?_, ?_, ?_, fun hfin => by simp [hf] at hfin⟩
   · intro ty; simp only []; rw [filter_append_nil _ _ _ (by intro x hx; simp at hx; subst hx; rfl)]; exact h.news ty
   · intro _ r hr; simp only [List.mem_append, List.mem_singleton] at hr
     rcases hr with hr | hr
@@ -231,6 +265,11 @@ theorem einv_addVar (cfg : Cfg) (s : XState) (h : EInv cfg s) (b : Bool) (info :
     rcases hm with hm | hm
     · exact refIn_of_le cfg s _ hle r (h.links lty e src dst hm r hr)
     · cases hm
+  · intro a ha
+    simp only [List.mem_append, List.mem_singleton] at ha
+    rcases ha with ha | ha
+    · exact refIn_of_le cfg s _ hle a (h.createdIn a ha)
+    · subst ha; simp [refIn, size_vars]
   · intro i hi
     simp only [List.length_append, List.length_singleton] at hi
     by_cases e : i < s.vars.length
@@ -247,21 +286,25 @@ theorem einv_addVar (cfg : Cfg) (s : XState) (h : EInv cfg s) (b : Bool) (info :
 
 theorem einv_sameOut (cfg : Cfg) (s s' : XState) (h : EInv cfg s) (hle : SLe s s') (ho : s'.out = s.out)
     (hv : s'.vars.length = s.vars.length) (hc : ∀ ty, (s'.cons ty).length = (s.cons ty).length)
-    (hd : s'.delivered = s.delivered) (hf : s'.finished = s.finished) (hnf : s.finished = false) : EInv cfg s' := by
-  refine ⟨?_, ?_, ?_, ?_, ?_, ?_, fun hfin => by rw [hf, hnf] at hfin; cases hfin⟩
+    (hd : s'.delivered = s.delivered) (hf : s'.finished = s.finished) (hnf : s.finished = false)
+    (hcr : s'.created = s.created) : EInv cfg s' := by
+  refine ⟨?_, ?_, ?_, ?_, ?_, ?_, ?_, fun hfin => by rw [hf, hnf] at hfin; cases hfin⟩
   · intro ty; rw [ho, hc]; exact h.news ty
   · intro _ r hr; rw [ho] at hr; exact h.nostat hnf r hr
   · intro _; rw [hd]; exact h.nodeliv hnf
   · intro lty e src dst hm r hr; rw [ho] at hm
     exact refIn_of_le cfg s s' hle r (h.links lty e src dst hm r hr)
+  · intro a ha; rw [hcr] at ha; exact refIn_of_le cfg s s' hle a (h.createdIn a ha)
   · intro i hi; rw [hv] at hi; rw [ho]; exact h.vars1 i hi
   · intro i b info hm; rw [ho] at hm; rw [hv]; exact h.vars2 i b info hm
 
-theorem einv_store (cfg : Cfg) (s : XState) (h : EInv cfg s) (ty0 : Str) (hf : s.finished = false) :
-    EInv cfg { s with cons := updCons s.cons ty0 (s.cons ty0 ++ [.fresh]), out := s.out ++ [Rec.conNew ty0 (s.cons ty0).length] } := by
-  have hle : SLe s { s with cons := updCons s.cons ty0 (s.cons ty0 ++ [.fresh]), out := s.out ++ [Rec.conNew ty0 (s.cons ty0).length] } :=
-    ⟨Nat.le_refl _, updCons_len_le _ _ _ (by simp), fun _ => Nat.le_refl _⟩
-  refine ⟨?_, ?_, h.nodeliv, ?_, ?_, ?_, fun hfin => by simp [hf] at hfin⟩
+theorem einv_store (cfg : Cfg) (ok : CfgOk cfg) (s : XState) (h : EInv cfg s) (ty0 : Str) (hf : s.finished = false)
+    (hty : cfg.types.contains ty0 = true) :
+    EInv cfg (storeState s ty0) := by
+  have hle : SLe s (storeState s ty0) :=
+    ⟨Nat.le_refl _, updCons_len_le _ _ _ (by simp), fun _ => Nat.le_refl _, fun _ => Nat.le_refl _⟩
+  unfold storeState at hle ⊢
+  refine ⟨?_, ?_, h.nodeliv, ?_, ?_, ?_, ?_, fun hfin => by simp [hf] at hfin⟩
   · intro ty
     simp only []
     by_cases e : ty = ty0
@@ -280,6 +323,12 @@ theorem einv_store (cfg : Cfg) (s : XState) (h : EInv cfg s) (ty0 : Str) (hf : s
     rcases hm with hm | hm
     · exact refIn_of_le cfg s _ hle r (h.links lty e src dst hm r hr)
     · cases hm
+  · intro a ha
+    simp only [List.mem_append, List.mem_singleton] at ha
+    rcases ha with ha | ha
+    · exact refIn_of_le cfg s _ hle a (h.createdIn a ha)
+    · subst ha
+      simp [refIn, size_ty cfg ok _ ty0 hty, updCons_same]
   · intro i hi
     obtain ⟨b', info', hm⟩ := h.vars1 i hi
     exact ⟨b', info', by simp [hm]⟩
@@ -289,11 +338,36 @@ theorem einv_store (cfg : Cfg) (s : XState) (h : EInv cfg s) (ty0 : Str) (hf : s
     · exact h.vars2 i b' info' hm
     · cases hm
 
+theorem covered_refIn (cfg : Cfg) (s : XState) (h : EInv cfg s) (r : NodeRef) (hc : covered cfg s r = true) :
+    refIn cfg s r = true := by
+  unfold covered at hc
+  simp only [Bool.and_eq_true, decide_eq_true_eq] at hc
+  obtain ⟨hle, hc⟩ := hc
+  cases hg : destConsGroup? r.node with
+  | some g =>
+    simp only [hg, Bool.and_eq_true, Bool.not_eq_true', decide_eq_false_iff_not, decide_eq_true_eq] at hc
+    obtain ⟨⟨h1, h2⟩, h3⟩ := hc
+    unfold refIn sizeNow
+    rw [if_neg h1, if_neg (by rw [h2]; simp)]
+    simp only [hg, Bool.and_eq_true, decide_eq_true_eq]
+    exact ⟨hle, h3⟩
+  | none =>
+    simp only [hg, List.any_eq_true, Bool.and_eq_true, decide_eq_true_eq] at hc
+    obtain ⟨a, ha, hn, hl⟩ := hc
+    have hr := h.createdIn a ha
+    unfold refIn at hr ⊢
+    rw [hn] at hr
+    cases hs : sizeNow cfg s r.node with
+    | none => simp [hs] at hr
+    | some sz =>
+      simp only [hs, Bool.and_eq_true, decide_eq_true_eq] at hr ⊢
+      exact ⟨hle, by omega⟩
+
 theorem einv_link (cfg : Cfg) (s : XState) (h : EInv cfg s) (lty : Str) (en : Nat) (src dst : List NodeRef)
-    (hg : (src.all (refIn cfg s) && dst.all (refIn cfg s)) = true) :
+    (hg : (src.all (covered cfg s) && dst.all (covered cfg s)) = true) :
     EInv cfg { s with out := s.out ++ [Rec.link lty en src dst] } := by
   simp only [Bool.and_eq_true, List.all_eq_true] at hg
-  refine ⟨?_, ?_, h.nodeliv, ?_, ?_, ?_, ?_⟩
+  refine ⟨?_, ?_, h.nodeliv, ?_, h.createdIn, ?_, ?_, ?_⟩
   · intro ty; simp only []; rw [filter_append_nil _ _ _ (by intro x hx; simp at hx; subst hx; rfl)]; exact h.news ty
   · intro hf r hr; simp only [List.mem_append, List.mem_singleton] at hr
     rcases hr with hr | hr
@@ -305,8 +379,8 @@ theorem einv_link (cfg : Cfg) (s : XState) (h : EInv cfg s) (lty : Str) (en : Na
     · exact h.links lty' e' src' dst' hm r hr
     · cases hm
       rcases hr with hr | hr
-      · exact hg.1 r hr
-      · exact hg.2 r hr
+      · exact covered_refIn cfg s h r (hg.1 r hr)
+      · exact covered_refIn cfg s h r (hg.2 r hr)
   · intro i hi
     obtain ⟨b', info', hm⟩ := h.vars1 i hi
     exact ⟨b', info', by simp [hm]⟩
@@ -326,7 +400,7 @@ theorem einv_finish (cfg : Cfg) (hn : cfg.types.Nodup) (s : XState) (h : EInv cf
     EInv cfg (finishState cfg s) := by
   have hd := h.nodeliv hf
   have hle : SLe s (finishState cfg s) :=
-    ⟨Nat.le_refl _, fun _ => Nat.le_refl _, fun g => by simp [finishState, hd]⟩
+    ⟨Nat.le_refl _, fun _ => Nat.le_refl _, fun g => by simp [finishState, hd], fun _ => Nat.le_refl _⟩
   -- classification of the appended records
   have hvar : ∀ r, r ∈ varRecs 0 s.vars → ∃ k b info, r = Rec.var k b info ∧ k < s.vars.length := by
     intro r hr; obtain ⟨k, b, info, e, hk⟩ := varRecs_mem s.vars 0 r hr
@@ -341,7 +415,8 @@ theorem einv_finish (cfg : Cfg) (hn : cfg.types.Nodup) (s : XState) (h : EInv cf
     · obtain ⟨k, b, info, e, _⟩ := hvar r hr; subst e; rfl
     · exact (af_status cfg s.cons cfg.types r hr).2 ty
     · obtain ⟨t, g, e⟩ := hgrp r hr; subst e; rfl
-  refine ⟨?_, fun hfin => by simp [finishState] at hfin, fun hfin => by simp [finishState] at hfin, ?_, ?_, ?_, ?_⟩
+  refine ⟨?_, fun hfin => by simp [finishState] at hfin, fun hfin => by simp [finishState] at hfin, ?_,
+    fun a ha => refIn_of_le cfg s _ hle a (h.createdIn a ha), ?_, ?_, ?_⟩
   · intro ty; simp only [finishState, finishRecs]; rw [filter_append_nil _ _ _ (hnotnew ty)]; exact h.news ty
   · intro lty e src dst hm r hr
     simp only [finishState, finishRecs, List.mem_append] at hm
@@ -380,7 +455,8 @@ theorem einv_finish (cfg : Cfg) (hn : cfg.types.Nodup) (s : XState) (h : EInv cf
     · simp only [finishState, finishRecs, md_append, md_nostatus _ hold, md_nostatus _ hvs, md_nostatus _ hgs, af_delivered]
       simp
 
-theorem einv_step (cfg : Cfg) (hn : cfg.types.Nodup) (s : XState) (h : EInv cfg s) (e : Ev) : EInv cfg (xev cfg s e) := by
+theorem einv_step (cfg : Cfg) (ok : CfgOk cfg) (s : XState) (h : EInv cfg s) (e : Ev) : EInv cfg (xev cfg s e) := by
+  have hn := ok.nodup
   cases e with
   | addVar b info =>
     simp only [xev]; split
@@ -391,15 +467,15 @@ theorem einv_step (cfg : Cfg) (hn : cfg.types.Nodup) (s : XState) (h : EInv cfg 
     · exact einv_reject cfg s h
     · rename_i hf
       split
-      · exact einv_sameOut cfg s _ h ⟨by simp [setAt], fun _ => Nat.le_refl _, fun _ => Nat.le_refl _⟩ rfl (by simp [setAt])
-          (fun _ => rfl) rfl rfl (by simpa using hf)
+      · exact einv_sameOut cfg s _ h ⟨by simp [setAt], fun _ => Nat.le_refl _, fun _ => Nat.le_refl _, fun _ => Nat.le_refl _⟩ rfl (by simp [setAt])
+          (fun _ => rfl) rfl rfl (by simpa using hf) rfl
       · exact einv_reject cfg s h
   | store ty =>
     simp only [xev]; split
     · exact einv_reject cfg s h
     · rename_i hf
       simp only [Bool.or_eq_true, Bool.not_eq_true', not_or] at hf
-      exact einv_store cfg s h ty (by simpa using hf.1)
+      exact einv_store cfg ok s h ty (by simpa using hf.1) (by simpa using hf.2)
   | bridge ty i =>
     simp only [xev]; split
     · exact einv_reject cfg s h
@@ -409,8 +485,8 @@ theorem einv_step (cfg : Cfg) (hn : cfg.types.Nodup) (s : XState) (h : EInv cfg 
         intro t; unfold updCons; split
         · rename_i e; subst e; simp [setAt]
         · rfl
-      exact einv_sameOut cfg s _ h ⟨Nat.le_refl _, fun t => by rw [hlen t]; exact Nat.le_refl _, fun _ => Nat.le_refl _⟩ rfl rfl hlen rfl rfl
-        (by simpa using hf.1.1)
+      exact einv_sameOut cfg s _ h ⟨Nat.le_refl _, fun t => by rw [hlen t]; exact Nat.le_refl _, fun _ => Nat.le_refl _, fun _ => Nat.le_refl _⟩ rfl rfl hlen rfl rfl
+        (by simpa using hf.1.1) rfl
   | unuse ty i =>
     simp only [xev]; split
     · exact einv_reject cfg s h
@@ -420,8 +496,34 @@ theorem einv_step (cfg : Cfg) (hn : cfg.types.Nodup) (s : XState) (h : EInv cfg 
         intro t; unfold updCons; split
         · rename_i e; subst e; simp [setAt]
         · rfl
-      exact einv_sameOut cfg s _ h ⟨Nat.le_refl _, fun t => by rw [hlen t]; exact Nat.le_refl _, fun _ => Nat.le_refl _⟩ rfl rfl hlen rfl rfl
-        (by simpa using hf.1.1)
+      exact einv_sameOut cfg s _ h ⟨Nat.le_refl _, fun t => by rw [hlen t]; exact Nat.le_refl _, fun _ => Nat.le_refl _, fun _ => Nat.le_refl _⟩ rfl rfl hlen rfl rfl
+        (by simpa using hf.1.1) rfl
+  | addItems node n =>
+    simp only [xev]; split
+    · exact einv_reject cfg s h
+    · rename_i hf
+      simp only [Bool.or_eq_true, Bool.not_eq_true', decide_eq_true_eq, not_or] at hf
+      obtain ⟨⟨hf1, hf2⟩, hf3⟩ := hf
+      have hnode : cfg.addNodes.contains node = true := by simpa using hf2
+      have hle : SLe s (addItemsState s node n) := by
+        refine ⟨Nat.le_refl _, fun _ => Nat.le_refl _, fun _ => Nat.le_refl _, fun t => ?_⟩
+        simp only [addItemsState]; split
+        · rename_i e; subst e; omega
+        · exact Nat.le_refl _
+      refine ⟨h.news, h.nostat, h.nodeliv, ?_, ?_, h.vars1, h.vars2, fun hfin => by simp [addItemsState, hf1] at hfin⟩
+      · intro lty e src dst hm r hr
+        exact refIn_of_le cfg s _ hle r (h.links lty e src dst hm r hr)
+      · intro a ha
+        have ha' : a ∈ s.created ++ [⟨node, s.extra node, s.extra node + n - 1⟩] := ha
+        simp only [List.mem_append, List.mem_singleton] at ha'
+        rcases ha' with ha' | ha'
+        · exact refIn_of_le cfg s _ hle a (h.createdIn a ha')
+        · subst ha'
+          have hs := size_add cfg ok (addItemsState s node n) node hnode
+          have he : (addItemsState s node n).extra node = s.extra node + n := by simp [addItemsState]
+          rw [he] at hs
+          simp only [refIn, hs, Bool.and_eq_true, decide_eq_true_eq]
+          omega
   | link lty en src dst =>
     simp only [xev]; split
     · rename_i hg; exact einv_link cfg s h lty en src dst hg
@@ -431,7 +533,7 @@ theorem einv_step (cfg : Cfg) (hn : cfg.types.Nodup) (s : XState) (h : EInv cfg 
     · exact einv_reject cfg s h
     · rename_i hf; exact einv_finish cfg hn s h (by simpa using hf)
 
-theorem einv_run (cfg : Cfg) (hn : cfg.types.Nodup) : ∀ (evs : List Ev) (s : XState), EInv cfg s → EInv cfg (xevs cfg s evs)
+theorem einv_run (cfg : Cfg) (hn : CfgOk cfg) : ∀ (evs : List Ev) (s : XState), EInv cfg s → EInv cfg (xevs cfg s evs)
   | [], _, h => h
   | e :: evs, s, h => einv_run cfg hn evs (xev cfg s e) (einv_step cfg hn s h e)
 
